@@ -13,7 +13,7 @@ from . import common as C
 CTORS = ("vaporetto::char_scorer::CharScorer::new", "vaporetto::type_scorer::TypeScorer::new")
 
 
-def run(chk, w):
+def run(chk, w, directions=("absent-implies-empty", "empty-implies-absent")):
     chk.rule("R01.8", "a scorer is absent only when all its weight sets are empty (or the window is 0)")
     n = 0
     for fn in CTORS:
@@ -52,6 +52,8 @@ def run(chk, w):
                         empties[root[1]] = r[1] if r[0] == "b" else None
             all_empty = bool(bearing) and all(empties.get(i) is True for i in bearing)
             n += 1
+            if "absent-implies-empty" not in directions:
+                continue
             chk.ob("R01.8", "%s:absent-path[%s]" % (short, "window=0" if win0 else ",".join("%d:%s" % (i, empties.get(i)) for i in bearing)), win0 or all_empty,
                    "%s returns Ok(None) on a path where the window is not known to be 0 and the emptiness tests of its weight-bearing parameters %s gave %s: "
                    "a model with a non-empty dictionary or n-gram set would lose those weights from every boundary score" % (fn, bearing, empties),
@@ -71,7 +73,8 @@ def run(chk, w):
             ctor = [e for e in o.trace if e[0] == "call" and re.search(r"(Char|Type)ScorerBoundary\w*::new$", e[2] or "")]
             if ctor and bearing and all(tr_empty.get(i) is True for i in bearing):
                 bad_present.append(ctor[0][2].split("::")[-2])
-        chk.ob("R01.8", "%s:no-pattern-implies-absent" % short, not bad_present,
+        if "empty-implies-absent" in directions:
+          chk.ob("R01.8", "%s:no-pattern-implies-absent" % short, not bad_present,
                "%s constructs %s on a path where every n-gram / dictionary table of the boundary model was found empty: the automaton cannot be built from an empty pattern set, "
                "so Predictor::new rejects a model that training returned" % (fn, sorted(set(bad_present))), site=C.site(b), nontrivial=True)
         chk.ob("R01.8", "%s:has-present-path" % short, somes > 0 and bool(bearing) and bool(window), "%s: %d Ok(Some) paths, weight-bearing parameters %s, window parameters %s" % (fn, somes, bearing, window), site=C.site(b), nontrivial=False)
